@@ -519,8 +519,20 @@ func meshes3(r *vlib.Run) {
 		// JoinedCollider sphere collisions, sign from ray parity)
 		if len(ts) <= 3000 {
 			const iters = 24
-			cs := model3d.ColliderToSDF(model3d.MeshToCollider(model3d.NewMeshTriangles(faces)), iters)
+			var coll model3d.Collider = model3d.MeshToCollider(model3d.NewMeshTriangles(faces))
 			capi := "model3d.ColliderToSDF[MeshToCollider]"
+			padded := rng.Intn(3) == 0
+			if padded {
+				// a caller's own collider type that takes its bounds from an embedded *Rect (and
+				// with them, by method promotion, the box's SDF and Contains methods) but answers
+				// every collision query from the mesh
+				pad := size * (0.1 + rng.Float64())
+				coll = &paddedCollider3{Rect: &model3d.Rect{MinVal: coll.Min().AddScalar(-pad), MaxVal: coll.Max().AddScalar(pad)}, Inner: coll}
+				capi = "model3d.ColliderToSDF[caller's collider embedding *Rect]"
+				c.Count("mesh3d.ColliderToSDF.colliders_embedding_a_rect", 1)
+			}
+			cs := model3d.ColliderToSDF(coll, iters)
+			csolid := model3d.NewColliderSolid(coll)
 			for qi := 0; qi < 4; qi++ {
 				p, _ := meshQuery3(rng, ts, lo, hi, size)
 				nb := g.BruteNearest3(p, ts, -1)
@@ -545,6 +557,9 @@ func meshes3(r *vlib.Run) {
 							c.Violation(capi+".SDF/sign", fmt.Sprintf("SDF=%.17g but the winding number is %.6f", v, w), wit(p, nil))
 						} else {
 							c.Count("mesh3d.ColliderToSDF.sign_ok", 1)
+						}
+						if padded && csolid.Contains(model3d.XYZ(p.X, p.Y, p.Z)) != inside {
+							c.Violation("model3d.NewColliderSolid[caller's collider embedding *Rect].Contains/even-odd", fmt.Sprintf("Contains=%v but the winding number is %.6f", !inside, w), wit(p, nil))
 						}
 					}
 				}
@@ -640,4 +655,21 @@ func trianglePrims3(r *vlib.Run) {
 		}
 		c.Nontrivial(hx(t[0]) + hx(t[1]) + hx(t[2]))
 	})
+}
+
+// paddedCollider3 is a caller-defined collider: bounds (and everything else a *Rect has) from the
+// embedded box, collisions from the inner collider.
+type paddedCollider3 struct {
+	*model3d.Rect
+	Inner model3d.Collider
+}
+
+func (p *paddedCollider3) RayCollisions(r *model3d.Ray, f func(model3d.RayCollision)) int {
+	return p.Inner.RayCollisions(r, f)
+}
+func (p *paddedCollider3) FirstRayCollision(r *model3d.Ray) (model3d.RayCollision, bool) {
+	return p.Inner.FirstRayCollision(r)
+}
+func (p *paddedCollider3) SphereCollision(c model3d.Coord3D, r float64) bool {
+	return p.Inner.SphereCollision(c, r)
 }
